@@ -11,31 +11,19 @@ git -C /verif worktree add -q --detach $SNAP HEAD || exit 2
 export VERIF_SNAP=$SNAP
 OUT=/verif/seeded/RESULTS.tsv; : > $OUT.tmp
 jobs=()
+# optional arguments: seed ids to (re)run; their lines replace the old ones in RESULTS.tsv
+SEEDS="$*"
 for d in seeded/C*-*/; do
   s=$(basename $d); p=${s%%-*}
+  if [ -n "$SEEDS" ] && ! echo " $SEEDS " | grep -q " $s "; then continue; fi
   checks="$p $(grep "^$s " seeded/EXTRA 2>/dev/null | cut -d' ' -f2-)"
   for c in $checks; do echo "$s $c"; done
 done > /tmp/seed_jobs.txt
 cat /tmp/seed_jobs.txt | xargs -P 6 -L 1 bash -c '/verif/tools/seed_run.sh $0 $1' | tee $OUT.tmp
-sort $OUT.tmp > $OUT; rm $OUT.tmp
+if [ -n "$SEEDS" ] && [ -f $OUT ]; then
+  for s in $SEEDS; do grep -v "^seed=$s " $OUT > $OUT.keep; mv $OUT.keep $OUT; done
+  cat $OUT >> $OUT.tmp
+fi
+sort -u $OUT.tmp > $OUT; rm $OUT.tmp
 git -C /verif worktree remove --force $SNAP
-python3 - <<'PY'
-import json,re,collections,os
-rows=collections.defaultdict(list)
-for l in open('/verif/seeded/RESULTS.tsv'):
-    m=re.match(r'seed=(\S+) check=(\S+) (?:exit=(\d+) violations=(\d+) :: (.*)|(APPLY-FAIL))',l.strip())
-    if not m: continue
-    s,c,ex,v,what,af=m.groups()
-    rows[s].append((c,ex,v,(what or af or '').strip()))
-md=["# Seeded mutants: which check catches which change\n","| seed | breaks | needs | caught by (violated assertions) | not caught by |","|---|---|---|---|---|"]
-for s in sorted(rows):
-    meta=json.load(open(f'/verif/seeded/{s}/meta.json'))
-    caught=[f"{c}: {w}" for c,ex,v,w in rows[s] if ex=='1']
-    missed=[c+(" (inconclusive)" if ex=='2' else "") for c,ex,v,w in rows[s] if ex!='1']
-    meta['detected_by']=[c for c,ex,v,w in rows[s] if ex=='1'] or None
-    meta['check_results']=[{"check":c,"exit":ex,"violation_lines":v,"violated":w} for c,ex,v,w in rows[s]]
-    json.dump(meta,open(f'/verif/seeded/{s}/meta.json','w'),indent=1)
-    note=meta.get('note','')
-    md.append(f"| {s} | {meta['breaks_property']} | {meta['needs_to_manifest'][:140]} | {'<br>'.join(caught) or '—'} | {', '.join(missed) or '—'} {note} |")
-open('/verif/seeded/RESULTS.md','w').write("\n".join(md)+"\n")
-PY
+python3 /verif/tools/seed_report.py
